@@ -102,28 +102,38 @@ func ValuesMain(args []string) int {
 				text := codes(c["t"])
 				switch ty {
 				case "int":
-					var v quickfix.FIXInt
+					v := quickfix.FIXInt(-77) // a receiver that is not fresh
 					e := v.Read(text)
 					row["ok"] = e == nil
 					row["iv"] = int(v)
+					row["wb"] = toCodes(v.Write())
 				case "float":
 					var v quickfix.FIXFloat
 					e := v.Read(text)
 					row["ok"] = e == nil
+					row["wb"] = []int{}
 					if e == nil {
 						row["fv"] = canonDecimal(float64(v))
 					} else {
 						row["fv"] = []interface{}{false, 0, 0}
 					}
 				case "bool":
-					var v quickfix.FIXBoolean
+					v := quickfix.FIXBoolean(len(text)%2 == 0)
 					e := v.Read(text)
 					row["ok"] = e == nil
 					row["bv"] = bool(v)
+					row["wb"] = toCodes(v.Write())
 				case "ts":
+					// a receiver that already holds a stamp of another precision
 					var v quickfix.FIXUTCTimestamp
+					if len(text)%2 == 0 {
+						_ = v.Read([]byte("19990101-01:01:01"))
+					} else {
+						_ = v.Read([]byte("19990101-01:01:01.123456789"))
+					}
 					e := v.Read(text)
 					row["ok"] = e == nil
+					row["wb"] = toCodes(v.Write())
 					if e == nil {
 						row["ts"] = tsFields(v.Time)
 					} else {
